@@ -1,7 +1,7 @@
 """C16 - deterministic evaluation order and first-failure reporting."""
 from typing import Any, Dict, List, Tuple
 
-from vfw.build import RT, get_built, invoke, identify
+from vfw.build import RT, get_built, invoke, identify, raised_types
 from vfw.hlib import Tag, conc, fresh, note
 from vfw.hspec import B, H, I, bind
 from vfw.prog import CTOR_KINDS, Level, Prog, effective, expect
@@ -62,7 +62,7 @@ def run_order(kind: str, is_async: bool, mode: str, a0: int, b0: int, s0: int, i
     built = get_built(prog, mode)
     rt = RT(tv=tv, body=body, error_mode=mode)
     built.rt = rt
-    catch = (Tag,) if mode in ("factory", "falsy_factory") else (AssertionError,)
+    catch = raised_types(built)
     try:
         fresh(invoke, built, 7)
         raised = None
